@@ -43,7 +43,15 @@ def cases(tier, seed):
         elif cls == 4 and i % 10 == 4:  # water backing up to the surface: shallow table, uneven compartments, storms
             kw.update(p_gw=1.0, gw_depths=(0.3, 0.5, 0.8), p_custom=0.5, p_dz=1.0, soil_names=["ac_TunisLocal", "Clay", "Loam", "SiltClay"],
                       regimes=["monsoon", "humid"], p_file=0.0, p_bunds=0.0, off_season=True)
+        if cls == 0 and i % 15 == 10:
+            # the curve-number adjustment on in the season, off - with a percentage left in place -
+            # in the simulated fallow period, on soils with a high curve number
+            kw.update(off_season=True, soil_names=["Clay", "ClayLoam", "SandyClay", "Paddy", "SiltClay"], p_custom=0.0,
+                      regimes=["monsoon", "humid"], p_file=0.0, p_bunds=0.0, pre=(30, 90))
         sp = gen.config(rng, **kw)
+        if cls == 0 and i % 15 == 10:
+            sp["fm"] = dict(sp.get("fm") or {}, curve_number_adj=True, curve_number_adj_pct=10.0, bunds=False)
+            sp["ffm"] = {"curve_number_adj": False, "curve_number_adj_pct": 40.0}
         out.append({"spec": sp})
     return out
 
